@@ -34,17 +34,18 @@ fn interior_violation(cones: &[ConeT], e: &IterEvent, prev: Option<&IterEvent>) 
             }
             continue;
         }
-        // second-order, exponential, power and PSD blocks are judged while the squares and products of their
-        // components are representable numbers: a block that has shrunk below 1e-150 (reached only by runs that
-        // are never allowed to stop, after 80+ iterations) is underflow noise to the implementation's own
-        // quadratic forms, and "up to rounding" has no relative meaning there
+        // second-order, exponential, power and PSD blocks are judged while the FOURTH powers of their components
+        // are representable numbers (the second-order step length takes the discriminant b^2 - ac of a quadratic
+        // whose coefficients are themselves squares): a block that has shrunk below 1e-75 (reached only by runs
+        // that are never allowed to stop, after 40+ iterations) is underflow noise to the implementation's own
+        // forms, and "up to rounding" has no relative meaning there
         // a block that is exactly zero sits at the apex: not interior, and no rounding argument applies
         if s.iter().all(|v| *v == 0.0) || z.iter().all(|v| *v == 0.0) {
             return Some(json!({"what": "block exactly at the apex of its cone", "cone": ci, "kind": vkit::cones::cone_name(c), "s": s, "z": z, "iteration": e.iterations}));
         }
         let blk = s.iter().chain(z.iter()).fold(0.0f64, |m, v| m.max(v.abs()));
         let blk_min = s.iter().fold(0.0f64, |m, v| m.max(v.abs())).min(z.iter().fold(0.0f64, |m, v| m.max(v.abs())));
-        if !(blk_min >= 1e-150 && blk <= 1e150) {
+        if !(blk_min >= 1e-75 && blk <= 1e75) {
             NOT_JUDGED.fetch_add(1, std::sync::atomic::Ordering::Relaxed);
             continue;
         }
@@ -459,7 +460,7 @@ pub fn run(ctx: &mut Ctx) {
         ctx.observe_max("floor_minus_log10_smallest_component", -smallest.log10());
         let nj = NOT_JUDGED.swap(0, std::sync::atomic::Ordering::Relaxed);
         if nj > 0 {
-            ctx.bump_n("cone_blocks_beyond_1e-150_or_1e150_not_judged", nj);
+            ctx.bump_n("cone_blocks_beyond_1e-75_or_1e75_not_judged", nj);
         }
         if case < 1 {
             ctx.sample(json!({"workload": wl, "n": p.n(), "m": p.m(), "cones": problem::cones_json(&p.cones), "status": status_name(r.status), "iterations": r.iterations, "smallest_positive_component": smallest}));
